@@ -514,11 +514,20 @@ class StdioClient:
                         else:
                             logger.error(f"Task error during shutdown: {e}")
 
-            if self.process and self.process.returncode is None:
-                await self._terminate_process()
-
         except Exception as e:
             logger.debug(f"Error during stdio client shutdown: {e}")
+
+        finally:
+            # Always terminate the child, also when this exit is itself being
+            # cancelled (outer cancel scope, timeout around the context): the
+            # awaits above then raise and would otherwise skip the termination,
+            # leaving the subprocess running.  Bounded by the two 1s grace periods.
+            if self.process and self.process.returncode is None:
+                try:
+                    with anyio.CancelScope(shield=True):
+                        await self._terminate_process()
+                except Exception as e:
+                    logger.debug(f"Error during stdio client shutdown: {e}")
 
         return False
 
@@ -547,6 +556,15 @@ class StdioClient:
                         logger.debug("Process kill timed out during shutdown")
         except Exception as e:
             logger.debug(f"Error during process termination: {e}")
+        except BaseException:
+            # Interrupted (cancelled) while waiting for the child to go away:
+            # make sure it does not outlive us, then let the interruption through.
+            try:
+                if self.process.returncode is None:
+                    self.process.kill()
+            except Exception:
+                pass
+            raise
 
 
 # ---------------------------------------------------------------------- #
